@@ -1004,6 +1004,32 @@ func (e *contractEnv) allocArg(fn *ssa.Function, t ssa.Value) Contract {
 			}
 		}
 	}
+	// the method folded: every path that allocates hands Alloc the reflect.Type of one and the same Go type
+	if sf := foldSmall(e.P, fn); sf.ok {
+		var T types.Type
+		same, n := true, 0
+		for _, o := range sf.outs {
+			if o.Panics {
+				continue
+			}
+			for _, cl := range o.Calls {
+				g := rfCallee(&cl)
+				if g == nil || g.Name() != "Alloc" || len(cl.Args) != 2 {
+					continue
+				}
+				rt, isRT := cl.Args[1].(*cpRType)
+				if !isRT || rt.Go == nil || T != nil && !types.Identical(T, rt.Go) {
+					same = false
+					continue
+				}
+				T = rt.Go
+				n++
+			}
+		}
+		if same && n > 0 && T != nil {
+			return Contract{Kind: CPtr, T: T}
+		}
+	}
 	return Contract{Kind: CUnknown, Why: "Alloc with a type that is neither a package variable nor a receiver field"}
 }
 
